@@ -517,6 +517,10 @@ class Checker:
             if exp[0] == "throw":
                 if o == "ok":
                     self.violation(key + "|noraise", "%s = %s but list(s) = %s, so it should raise" % (case, str(content(norm(ev.get("v"))))[:120], str(L)[:160]), rp)
+                elif o != "throw":
+                    # an index error is an ordinary, catchable error: a break / continue / return leaving the
+                    # observation is not "raising"
+                    self.violation(key + "|escaped-" + str(o), "%s ended as `%s` (%s) instead of raising a catchable error; list(s) = %s" % (case, o, str(ev.get("err"))[:60], str(L)[:120]), rp)
             elif o != "ok":
                 self.violation(key + "|raised", "%s raised (%s), expected %s%s" % (case, str(ev.get("err"))[:90], str(exp[1])[:160],
                                                                                     "" if st.infinite else " since list(s) = %s" % str(L)[:120]), rp)
